@@ -77,6 +77,10 @@ def run_case(case, ctx):
     opts['probes'] = bool(rng.random() < 0.3)       # a probe table must not influence the channel choice (shank only)
     if opts['wm'] and case['seed'][-1] % 6 == 2:
         opts['wm_scale'] = 1e8
+    if case['seed'][-1] % 7 == 3:
+        opts.update(pos_scale=1e-6, ties=False)          # a probe described in metres
+    if not sparse and case['seed'][-1] % 5 == 1:
+        opts.update(raw='int16', n_samples=200, rate=100.)     # with raw data: an export of spike waveforms happens in between
     if sparse:
         opts['mid_pad'] = 0.4
     else:
@@ -118,6 +122,16 @@ def _report(ctx, desc, req, problems, base):
 def _dense(m, spec, desc, ctx, rng):
     nc = spec.n_channels
     scaling = float(spec.notes.get('template_scaling') or 1.0)
+    if spec.raw is not None:
+        # a waveform export on more channels than a template keeps must not change later template records
+        r0 = call(m.get_template, 0)
+        call(m.save_spikes_subset_waveforms, max_n_spikes_per_template=2, max_n_channels=nc + 2)
+        r1 = call(m.get_template, 0)
+        ctx.mon('export_between_requests')
+        if r0.ok and r1.ok and np.asarray(r0.value.channel_ids).tolist() != np.asarray(r1.value.channel_ids).tolist():
+            ctx.violation('wrong_channel_set', dict(desc, request={'t': 0, 'after': 'save_spikes_subset_waveforms'}),
+                          'template 0 lists channels %s before and %s after a waveform export' % (
+                              np.asarray(r0.value.channel_ids).tolist(), np.asarray(r1.value.channel_ids).tolist()), {'storage': 'dense', 'after_export': True})
     for t in range(spec.n_templates):
         # other read-only queries and refused requests in between: none of them may change what the records are
         if t % 2 == 0:
